@@ -23,17 +23,24 @@ both ways) and then watch, with oracles that never call the cloner:
                            every single edit;
   7. functionalize       - functionalize(P)(m) for every built-in pass leaves m's snapshot and proto
                            unchanged (P(m) for passes that declare changes_input=False is run too, but
-                           what it does to m is C14's business: report_only_direct_pass_changed_input).
+                           what it does to m is C14's business: report_only_direct_pass_changed_input);
+                           the same for functionalize(P) of composed and user-defined P: Sequential /
+                           PassManager objects (nested, several steps, early stop both ways) and
+                           functionalized members over built-in passes and synthetic passes of all four
+                           declaration classes (in-place, side-effect-only, functional, destructive -
+                           each behaving as declared, some raising after their work), called with a
+                           Model or a PassResult, once or twice (run_pipeline).
 """
 
 from __future__ import annotations
 
+import json
 import logging
 from collections import Counter
 
 import onnx_ir as ir
+from onnx_ir.passes import PassResult, functionalize
 from onnx_ir.passes import common as common_passes
-from onnx_ir.passes import functionalize
 
 from vfpy import c13_gen, histories, invariants, shrink, snapshot
 from vfpy.c13_lib import (
@@ -51,7 +58,10 @@ RULE = ("a case = one source (generated model with nested GRAPH/GRAPHS subgraphs
         "kinds, initializers, typed/shaped/annotated values, IRv11 device annotations; or the world left by an "
         "adversarial edit history) x one clone call (Model/Graph/Function/GraphView.clone, allow_outer_scope_values and "
         "deep_copy both ways) x one edit history of the world alphabet plus every setter applied to one copy while the "
-        "other copy's all-observables snapshot is compared after each edit; non-trivial = the clone returned, all "
+        "other copy's all-observables snapshot is compared after each edit (model targets also: functionalize(P)(m) for "
+        "built-in passes P and for two generated pipelines - Sequential/PassManager/functionalized members over built-in "
+        "and user-defined passes of every declaration class (in_place x changes_input) - with m's snapshot and proto "
+        "compared before/after); non-trivial = the clone returned, all "
         "pairing/identity/reference/fidelity oracles ran on a region with >=2 graphs or captured values or device "
         "annotations or a function, and >=10 edits were applied; distinct = hash of (target, flags, region sizes, "
         "multiset of edit kinds)")
@@ -63,6 +73,7 @@ ASSUMPTIONS = [
     "a pass that declares changes_input=False but edits its input when called directly (CheckerPass fills in initializer type/shape) is C14's business: report_only_direct_pass_changed_input",
     "a region whose nodes are not topologically sorted, or whose graphs are nested cyclically / reached twice, or with None names, is outside the judged domain (the cloner documents sortedness); such cases are report-only",
     "edit histories address one copy only: objects of the other copy and captured outer values are never drawn as arguments (RegionWorld); states satisfy the C01 clauses (owned_node_outputs avoided)",
+    "the user-defined passes of the pipeline workload behave as they declare (in-place / destructive edit the model they are given through ordinary public-API rewrites, side-effect-only / functional do not; self-checked against the snapshot at start-up); functional and destructive ones produce their result with Model.clone()",
     "snapshot covers every public data attribute of Value/Node/Graph/Function/Model (audited against dir() at start-up) plus nested type denotations, meta validity flags and Model.meta",
 ]
 
@@ -94,6 +105,10 @@ def plan(tier: str) -> dict:
             "target:view": 20 if quick else 500,
             "functionalize_runs": 200 if quick else 5000,
             **{f"pass:{name}": (3 if quick else 75) for name in PASSES},
+            "pipeline_runs": 80 if quick else 2000,
+            **{f"pipeline_first_pass:{d}": (6 if quick else 150) for d in c13_gen.DECL_NAMES},
+            "pipeline_first_pass:built-in:in-place": 6 if quick else 150,
+            "pipeline_mixing_edits_of_the_given_model_with_out_of_place_members": 20 if quick else 500,
         },
         "min_nontrivial": 120 if quick else 3000,
         "params": {"edits": 30},
@@ -531,6 +546,8 @@ def execute(desc: dict, edits: list | None, rng, n_edits: int, stop_after_sig: s
     if kind == "model" and gen_source:
         for name in desc.get("passes", []):
             run_pass(out, desc, target, w_orig, name, tail)
+        for pipe in desc.get("pipes", []):
+            run_pipeline(out, target, w_orig, pipe, tail)
 
     # ---- edit one copy, watch the other ------------------------------------------------------------------
     side = desc.get("side", "clone")
@@ -633,6 +650,105 @@ def run_pass(out: Outcome, desc, model, w_orig, name: str, tail: str) -> None:
                         + (first_proto_difference(pb, pa, type(ir.to_proto(model))) if pa else "not serialisable") + tail)
 
 
+PIPE_SIG = "functionalized-pipeline"
+
+
+def run_pipeline(out: Outcome, model, w_orig, pipe: dict, tail: str) -> None:
+    """functionalize(P)(m) for a composed / user-defined P (c13_gen.gen_pipeline): Sequential and
+    PassManager objects (nested, several steps), functionalized members, built-in passes and synthetic
+    passes of all four declaration classes (in-place, side-effect-only, functional, destructive; some
+    raising after their work) in every position.  Whatever P is and whether it returns or raises,
+    m's all-observables snapshot and proto must be what they were.  The signature names the kind of
+    the functionalized object and what it declares about itself (labels only; the verdict is the
+    snapshot / proto comparison)."""
+    c = out.counters
+    tree = pipe["tree"]
+    log: list = []
+    inner = c13_gen.build_pipeline(tree, log)
+    top = c13_gen.top_kind(tree)
+    declares = c13_gen.decl_name(inner.in_place, inner.changes_input)
+    leaf_classes = [c13_gen.leaf_class(x) for x in c13_gen.leaves(tree)]
+    what = (f"functionalize({c13_gen.describe_pipeline(tree)}) [a {top} that declares itself {declares}] called "
+            f"{pipe.get('repeat', 1)}x with a {'PassResult' if pipe.get('arg') == 'result' else 'Model'}")
+    wrapper = functionalize(inner)
+    try:
+        pb = proto_bytes(model)
+    except Exception:  # noqa: BLE001
+        pb = None
+    before = full_snapshot(w_orig)
+    for _ in range(pipe.get("repeat", 1)):
+        try:
+            result = wrapper(PassResult(model, False) if pipe.get("arg") == "result" else model)
+            c["pipeline_returned"] += 1
+            if result.modified:
+                c["pipeline_modified_its_copy"] += 1
+            if result.model is model:
+                out.add(f"{PIPE_SIG}-returned-input|{top}|declares {declares}", f"{what} returned m itself" + tail)
+        except Exception as e:  # noqa: BLE001 - a pipeline may fail (a member raises / rejects the model); m must still be untouched
+            root = e
+            for _ in range(12):
+                if root.__cause__ is None:
+                    break
+                root = root.__cause__
+            c[f"pipeline_raised:{type(root).__name__}"] += 1
+    after = full_snapshot(w_orig)
+    c["pipeline_runs"] += 1
+    c[f"pipeline_top:{top}"] += 1
+    c[f"pipeline_declares:{declares}"] += 1
+    c[f"pipeline_first_pass:{leaf_classes[0].split('!')[0]}"] += 1
+    c[f"pipeline_arg:{pipe.get('arg', 'model')}"] += 1
+    for lc in leaf_classes:
+        c[f"pipeline_member:{lc}"] += 1
+    bare = [x.split("!")[0].split(":")[-1] for x in leaf_classes]  # declaration class of each leaf
+    if any(t.startswith(("in-place:", "destructive:")) for t in log) and (
+            any(x in ("functional", "destructive") for x in bare) or '"fn"' in json.dumps(tree)):
+        c["pipeline_mixing_edits_of_the_given_model_with_out_of_place_members"] += 1
+    for t in log:
+        c[f"pipeline_copy_edit:{t.split(':')[1].split('(')[0]}"] += 1
+    sig = f"{PIPE_SIG}-changed-input|{top}|declares {declares}"
+    d = [x for x in snapshot.diff(before, after) if x[1] != "const_tensor_name"]
+    if d:
+        out.add(sig, f"{what} changed its input model m: "
+                + "; ".join(f"{lab}.{f}: {x!r} -> {y!r}" for lab, f, x, y in d[:4])
+                + f"\n  work done by the user-defined members: {log[:12]}" + tail)
+        return
+    if pb is None:
+        return
+    try:
+        pa = proto_bytes(model)
+    except Exception:  # noqa: BLE001
+        pa = None
+    if pa == pb:
+        return
+    ptype = type(ir.to_proto(model)) if pa is not None else None
+    if ptype is not None and without_attr_tensor_names(pa, ptype) == without_attr_tensor_names(pb, ptype):
+        c["report_only_shared_tensor_renamed_changes_serialised_attribute_tensor_name"] += 1
+        return
+    out.add(sig + "|proto-only", f"{what}: the serialised input model differs afterwards: "
+            + (first_proto_difference(pb, pa, ptype) if pa else "not serialisable") + tail)
+
+
+def ensure_synthetic_passes_visible() -> None:
+    """Harness self-check: called directly, a synthetic in-place pass leaves a non-empty snapshot
+    difference on the model it is given and a side-effect-only one leaves none (the other two
+    declarations involve Model.clone(), the code under test, and are not part of the self-check)."""
+    spec = {"family": "exec", "nodes": 4, "depth": 1, "funcs": 1, "inits": 2, "dev": False, "meta": True, "seed": 5}
+    for decl in ("in-place", "side-effect-only"):
+        for seed in (1, 2, 3):
+            m = c13_gen.build(spec)
+            ana, _ = analyze_model(m)
+            w = RegionWorld(set())
+            w.add_region(ana)
+            before = full_snapshot(w)
+            try:
+                c13_gen.build_pipeline(["s", decl, seed, False], [])(m)
+            except Exception:  # noqa: BLE001 - a public-API rewrite rejected by the tree under test: nothing to self-check
+                continue
+            changed = bool(snapshot.diff(before, full_snapshot(w)))
+            if changed != c13_gen.DECLS[decl][1]:
+                raise RuntimeError(f"synthetic {decl} pass (seed {seed}): input changed = {changed}")
+
+
 # =============================================================================================
 # driver, shrinking, replay
 # =============================================================================================
@@ -664,6 +780,7 @@ def make_desc(ctx, case: int, rng):
         k = 6 if src["spec"]["family"] == "exec" else 3
         start = rng.randrange(len(menu))
         desc["passes"] = [menu[(start + 7 * j) % len(menu)] for j in range(k)]
+        desc["pipes"] = [c13_gen.gen_pipeline(rng, src["spec"]["family"], PASSES) for _ in range(2)]
     return desc, b
 
 
@@ -683,13 +800,31 @@ def minimise(desc, edits, sig):
     desc = dict(desc)
     if edits:
         edits = shrink.ddmin(list(edits), lambda sub: reproduces(desc, sub, sig, 0), max_tests=60)
-    if not sig.startswith(("functionalize", "direct")):
-        trial = dict(desc, passes=[])
+    if sig.startswith(PIPE_SIG):
+        for p in desc.get("pipes", []):
+            trial = dict(desc, passes=[], pipes=[p])
+            if reproduces(trial, edits, sig, 0):
+                desc = trial
+                break
+        tests = 0
+        progress = len(desc.get("pipes", [])) == 1
+        while progress and tests < 40:
+            progress = False
+            for smaller in c13_gen.pipeline_reductions(desc["pipes"][0]):
+                tests += 1
+                trial = dict(desc, pipes=[smaller])
+                if reproduces(trial, edits, sig, 0):
+                    desc, progress = trial, True
+                    break
+                if tests >= 40:
+                    break
+    elif not sig.startswith(("functionalize", "direct")):
+        trial = dict(desc, passes=[], pipes=[])
         if reproduces(trial, edits, sig, 0):
             desc = trial
     else:
         name = sig.split("|")[1]
-        trial = dict(desc, passes=[name])
+        trial = dict(desc, passes=[name], pipes=[])
         if reproduces(trial, edits, sig, 0):
             desc = trial
     if desc["src"]["kind"] == "gen":
@@ -736,6 +871,7 @@ def run(ctx) -> None:
     if extra:
         raise RuntimeError(f"snapshot does not account for public attributes {extra}; extend vfpy/snapshot.py")
     ensure_xgen_consistent()
+    ensure_synthetic_passes_visible()
     n_edits = int(ctx.params.get("edits", 30))
     seen: set = set()
     for case in ctx.case_ids():
